@@ -618,6 +618,48 @@ static void wide_int_ranges()
     vp::bound("wide_int_ranges", "9 integer ranges up to 2^24-1 wide (incl. odd bounds above 2^23, negative, symmetric) x slot values -0.5, 0, 1e-7, .25, .5, .75, 0.9999999, 1, 1.5");
 }
 
+// managers built with every number of mapping control points the constructor takes (4 = the two points of a linear map ... 64): default map,
+// then gain 50 / offset 10, on the four parameter kinds
+static void control_point_counts()
+{
+    if(vp::ctx().shard != 0) return;
+    for(int cp : {4, 5, 6, 8, 16, 64}) for(int pi = 0; pi < 4; ++pi) {
+        std::string cid = "ctrlpoints|" + std::to_string(cp) + "|" + std::to_string(pi);
+        if(!vp::want(cid)) continue;
+        vp::current_case() = cid; vp::state(); vp::eval(); vp::nontrivial(vp::fnv(cid));
+        const PInfo &p = PORT[pi];
+        rtosc::AutomationMgr m(2, 1, cp); m.set_ports(g_ports);
+        std::vector<Got> got; capture(m, got);
+        m.createBinding(1, p.path, false);
+        const std::string cls = std::string(p.cls) + ",control-points=" + std::to_string(cp);
+        bool ok = true; double prev = -1e300;
+        for(float v : {-0.5f, 0.f, 0.25f, 0.5f, 0.75f, 1.f, 1.5f}) {
+            got.clear(); m.setSlot(1, v); vp::transition();
+            Emit e; e.ok = got.size() == 1; if(e.ok) { e.addr = got[0].addr; e.types = got[0].types; e.u32 = got[0].u32; }
+            double num = 0; std::string expect;
+            if(got.size() != 1 || got[0].addr != p.path || !Sys::value_of(p, e, num)) { vp::violation("message-to-bound-address|setSlot|" + cls, cid, std::string(p.path) + ", slot value " + fstr(v) + ": " + show_got(got)); ok = false; break; }
+            if(!Sys::in_range(p, num)) { vp::violation("value-outside-range|setSlot|" + cls, cid, std::string(p.path) + ", slot value " + fstr(v) + " produced " + fstr(num)); ok = false; break; }
+            if(num < prev) { vp::violation("not-monotone|setSlot|" + cls, cid, std::string(p.path) + ", slot value " + fstr(v) + " produced " + fstr(num) + " after " + fstr(prev)); ok = false; break; }
+            if(v >= 0.f && v <= 1.f && !Sys::default_map_ok(p, v, num, expect)) { vp::violation("default-map|setSlot|" + cls, cid, std::string(p.path) + ", slot value " + fstr(v) + " produced " + fstr(num) + ", expected " + expect); ok = false; break; }
+            prev = num;
+        }
+        if(ok) {   // a changed gain must take effect and keep the values in range and monotone
+            m.setSlotSubGain(1, 0, 50.f); m.updateMapping(1, 0);
+            double lo = 0, hi = 0; bool have = false; prev = -1e300;
+            for(float v : {0.f, 0.5f, 1.f}) {
+                got.clear(); m.setSlot(1, v); vp::transition();
+                Emit e; e.ok = got.size() == 1; if(e.ok) { e.addr = got[0].addr; e.types = got[0].types; e.u32 = got[0].u32; }
+                double num = 0;
+                if(got.size() != 1 || !Sys::value_of(p, e, num) || !Sys::in_range(p, num) || num < prev) { vp::violation("gain|setSlot|" + cls, cid, std::string(p.path) + " with gain 50, slot value " + fstr(v) + ": " + show_got(got)); ok = false; break; }
+                if(!have) { lo = num; have = true; } hi = num; prev = num;
+            }
+            if(ok && p.type != 'T' && !p.log && !(hi - lo < (p.mx - p.mn) * 0.75)) vp::violation("gain|setSlot|" + cls, cid, std::string(p.path) + ": gain 50 spans " + fstr(lo) + ".." + fstr(hi) + ", the full range is " + fstr(p.mn) + ".." + fstr(p.mx));
+        }
+        vp::outcome(std::string("control-points:") + (ok ? "ok" : "BAD")); vp::trace();
+    }
+    vp::bound("control_point_counts", "managers with 4,5,6,8,16,64 mapping control points x 4 parameter kinds: slot values -0.5..1.5 at the default map, then gain 50");
+}
+
 int main(int argc, char **argv)
 {
     vp::init(argc, argv, "C19");
@@ -629,7 +671,8 @@ int main(int argc, char **argv)
     if(!vp::replaying() || vp::ctx().replay.compare(0, 8, "ccsweep|") == 0) controller_sweep();
     if(!vp::replaying() || vp::ctx().replay.compare(0, 9, "longpath|") == 0) long_paths();
     if(!vp::replaying() || vp::ctx().replay.compare(0, 10, "widerange|") == 0) wide_int_ranges();
-    if(vp::replaying() && (vp::ctx().replay.compare(0, 10, "widerange|") == 0 || vp::ctx().replay.compare(0, 8, "ccsweep|") == 0 || vp::ctx().replay.compare(0, 9, "longpath|") == 0)) return vp::finish();
+    if(!vp::replaying() || vp::ctx().replay.compare(0, 11, "ctrlpoints|") == 0) control_point_counts();
+    if(vp::replaying() && (vp::ctx().replay.compare(0, 11, "ctrlpoints|") == 0 || vp::ctx().replay.compare(0, 10, "widerange|") == 0 || vp::ctx().replay.compare(0, 8, "ccsweep|") == 0 || vp::ctx().replay.compare(0, 9, "longpath|") == 0)) return vp::finish();
     if(vp::replaying()) { bfs::Engine<Sys> E; E.run(); return vp::finish(); }
     const std::string out0 = vp::ctx().out;
     const std::string stem = out0.size() > 5 ? out0.substr(0, out0.size() - 5) : std::string("C19");
